@@ -1025,7 +1025,41 @@ class ExprMixin:
                 else:
                     res.append(("val", s, s.new_loc(kind, vs)))
             return res
+        if isinstance(it, VSeq) and kind == "list" and not gen.ifs:
+            return self.comp_seq_map(node, gen, it, st)
         return self.comp_symbolic(node, gen, it, st, kind)
+
+    def comp_seq_map(self, node, gen, it, st):
+        """[e(x) for x in <sequence>]: the order-preserving image seq.map(lambda x: e(x), s). The element expression is evaluated once on a
+        symbolic item; if it can raise (a call of a user callable), so can the comprehension."""
+        x = z3.Const(fresh_name("mx"), it.elem.comps[0])
+        s2 = st.clone()
+        outs = []
+        for o in self.assign_target(gen.target, unflatten(it.elem, (x,)), s2):
+            if o[0] == "exc":
+                raise EngineError("comprehension target raised")
+        was_hooks = getattr(self, "user_call_hooks", [])
+        rs = self.ev(node.elt, s2)
+        vals = [r for r in rs if r[0] == "val"]
+        excs = [r for r in rs if r[0] == "exc"]
+        if len(vals) != 1:
+            raise EngineError("comprehension element with several normal outcomes")
+        t = to_obj_term(vals[0][2])
+        lam = z3.Lambda([x], t)
+        if excs and not self.spec:
+            s_exc = st.clone()
+            e = fresh_value(ty.Exc(), "uexc")
+            s_exc.assume(z3.And(e.t > 0, e.t >= s_exc.alloc))
+            nxt = fresh_const("alloc", ty.IntS)
+            s_exc.assume(nxt == e.t + 1)
+            s_exc.alloc = nxt
+            c_, _ = s_exc.read_field(e, "cls")
+            s_exc.assume(self.schema.exc_valid(c_.t))
+            s_exc.notes.append("comprehension element raises")
+            outs.append(("exc", s_exc, e))
+        self.abstractions.add("a list comprehension over a sequence is seq.map of its element expression (order preserving)")
+        outs.append(("val", st, VSeq(z3.SeqMap(lam, it.t), ty.Obj)))
+        return outs
 
     def _key_const(self, v):
         if isinstance(v, VStr):
